@@ -957,6 +957,50 @@ fn panicking_io(rng: &mut Rng, rep: &mut Report) {
     }
 }
 
+/// A frame is read (from a line with or without its CR LF, the latter at the end of a stream), and right afterwards a frame
+/// whose data is one or two bytes shorter or longer, or of the same length, is written on the same thread: what reaches
+/// the sink is that frame's encoding with CR LF, whatever the line just read looked like.
+fn read_then_write_neighbours(rng: &mut Rng, rep: &mut Report) {
+    for d in 0..=255usize {
+        for with_crlf in [false, true] {
+            let read_data = rng.bytes(d);
+            let mut line = refs::enc(0x0102, 0x30, &read_data);
+            if with_crlf {
+                line.extend_from_slice(b"\r\n");
+            }
+            for delta in [-2i64, -1, 0, 1, 2] {
+                let n = d as i64 + delta;
+                if !(0..=255).contains(&n) {
+                    continue;
+                }
+                let out_data = rng.bytes(n as usize);
+                let sig = format!("read-then-write|{}|{}|{}", d, with_crlf, delta);
+                rep.case(Some(fnv(sig.as_bytes())));
+                let r = catch(|| {
+                    let mut stream = &line[..];
+                    let got = Frame::read(&mut stream).map_err(|e| e.to_string())?;
+                    let ok = got.data().as_ref() == &read_data[..];
+                    let mut sink: Vec<u8> = vec![];
+                    Frame::new(Address(0x0304), MsgType(0x31), Data::try_new(out_data.clone()).expect("<=255")).write(&mut sink).map_err(|e| e.to_string())?;
+                    Ok::<(bool, Vec<u8>), String>((ok, sink))
+                });
+                let want = refs::enc_crlf(0x0304, 0x31, &out_data);
+                let what = match r {
+                    Err(p) => Some(format!("panic {} at {}", p.msg, short_loc(&p.loc))),
+                    Ok(Err(e)) => Some(format!("failed: {}", e)),
+                    Ok(Ok((false, _))) => Some("the frame read does not carry the line's data".into()),
+                    Ok(Ok((_, sink))) if sink != want => Some(format!("the sink holds [{}], the frame's encoding is [{}]", show_bytes(&sink), show_bytes(&want))),
+                    Ok(Ok(_)) => None,
+                };
+                match what {
+                    None => rep.count("writes_right_after_a_read_of_a_neighbouring_length"),
+                    Some(w) => rep.violation(MON_W, "write_after_read_not_the_frames_encoding", &sig, format!("a frame of {} data bytes read from a line {} CR LF, then a frame of {} data bytes written on the same thread: {}", d, if with_crlf { "with" } else { "without" }, n, w), J::obj(vec![("workload", J::s("read then write")), ("read_line", J::hex(&line)), ("written_data", J::hex(&out_data)), ("observed", J::s(w.clone()))])),
+                }
+            }
+        }
+    }
+}
+
 /// A relay: every frame read from one stream is at once written to a sink on the same thread. Lines arrive in every
 /// spelling the decoder accepts (upper case, lower case, mixed; CR LF, or no terminator at the end of the stream); what
 /// goes out is the frame's own encoding — upper case, CR LF — whatever the line it came from looked like.
@@ -1240,6 +1284,7 @@ pub fn run(ctx: &Ctx) -> Outcome {
             std_readers(&mut ctx.rng("std_readers", 0), rep);
             panicking_io(&mut ctx.rng("panicking", 0), rep);
             relay_io(&mut ctx.rng("relay", 0), rep);
+            read_then_write_neighbours(&mut ctx.rng("read-then-write", 0), rep);
             twin_write_sessions(&mut ctx.rng("twins", 0), rep);
             marathon(rep);
         } else {
@@ -1286,6 +1331,7 @@ pub fn run(ctx: &Ctx) -> Outcome {
         floor("sinks and streams that write and read frames of their own during every call", report.get("chatty_sessions_ok") >= 20, report.get("chatty_sessions_ok")),
         floor("the standard library's readers and adaptors (slice, cursors, buffered readers, chains cut at every position, take) around streams of 2..5 lines", report.get("std_reader_rounds_ok") == 12, report.get("std_reader_rounds_ok")),
         floor("sinks and streams that panic in the middle of a call, then ordinary writes and reads on the same thread", report.get("sinks_and_streams_that_panicked") >= 30, report.get("sinks_and_streams_that_panicked")),
+        floor("a frame of every data length read (line with and without CR LF), then a frame one or two bytes shorter / longer / as long written on the same thread", report.get("writes_right_after_a_read_of_a_neighbouring_length") == 2 * (256 * 5 - 6), report.get("writes_right_after_a_read_of_a_neighbouring_length")),
         floor("frames read from lines in every accepted spelling and written out again at once on the same thread", report.get("frames_relayed") == 120, report.get("frames_relayed")),
         floor("gathering sinks and first-slice-only sinks", report.get("sinks/gathering") > 1000 && report.get("sinks/first_slice_only") > 1000, report.get("sinks/gathering")),
         floor("write failures surfaced and complete writes both observed", report.get("write_failures_surfaced") > 0 && report.get("writes_ok_complete") > 0, report.get("write_failures_surfaced")),
